@@ -127,6 +127,18 @@ CLAIMED.update({
     },
 })
 
+CLAIMED.update({
+    "C04": {
+        "text": "All pipelines of 1..2 (thorough 1..3) steps over 28 request-deterministic primitives (desired add/drop/reorder/mutate, context set/overwrite/clear, results and conditions of each severity/target, fatal, composite status and connection details, requirements by name present/absent, by labels with 0/1/2 matches, requirements that change once, drop, chain up to the iteration limit or never stabilise, step input, credentials present/absent) x 4 observed states run through the real XR reconciler (FunctionComposer + FetchingFunctionRunner + ExistingExtraResourcesFetcher) with a recording function runner; the recorded request sequence is compared call by call (proto.Equal) with an independent reference interpreter of the function contract, plus surfaced events, conditions and the final applied state. PackagedFunctionRunner: all operation sequences of depth 3 (thorough 4) over {run f, run g, switch active revision, change endpoint, uninstall / reinstall, GC connections} against in-process gRPC servers on unix sockets (v1 and v1beta1-only): exactly one delivery at the active revision's endpoint, version fallback preserves request and response, GC closes exactly the connections of uninstalled functions.",
+        "technique": "exhaustive enumeration of function-pipeline programs and runner operation sequences against an independent reference interpreter",
+        "note": "Trusted base: simkube, gRPC and protobuf libraries (real sockets for the runner part, run outside the synctest bubble with a watchdog deadline that is a harness error, never a verdict).",
+    },
+    "C20": {
+        "text": "The step list of `crossplane core init` reproduced with the same constructors, options and order (real TLS/CA generator, core CRDs and webhook configurations from /repo/cluster, lock, package installer, store config, runtime config, CRD migrator) over simkube: 38 (thorough 70) initial stores (empty, fully initialised, after step i for every i, CA with only key or cert, TLS secrets missing each key, other CA bundles on every carrier, user-edited defaults, an older release) x 3 runs - store equality (symbolic: key material replaced by its location), byte-identical secrets, unchanged resourceVersions of default objects, x509 verification of issued certificates for the service DNS names, bundles validate the serving certificate; 3 package kinds x 7 (12) reference forms x 8 (15) installed sets - no two packages of a kind share a repository, existing objects keep their name; and a run aborted by an API error / crash at any call followed by a clean run equals one clean run.",
+        "technique": "exhaustive enumeration of initial stores, reference forms and abort points (fault enumeration) with a differential single-clean-run oracle",
+    },
+})
+
 PENDING_REASON = "not claimed yet: the check for this property is still being built (design in DESIGN.md section 3); no technique switch is intended"
 
 
